@@ -98,8 +98,15 @@ def run_harness(binary, args, cwd, timeout=3600, env=None, ok_codes=(0,)):
         if crash and outs and os.path.exists(outs[0]):
             # the code under test took the process down: that is an observation, not harness trouble.
             # It is appended to the recording; no action of any trace specification explains it.
+            ev = {"ev": "crash", "what": crash, "exit": p.returncode}
+            if os.path.exists(outs[0] + ".pending"):
+                # the input the harness was handing over when the process died (it is in no recorded line)
+                try:
+                    ev["pending"] = json.load(open(outs[0] + ".pending"))
+                except ValueError:
+                    pass
             with open(outs[0], "a") as f:
-                f.write(json.dumps({"ev": "crash", "what": crash, "exit": p.returncode}) + "\n")
+                f.write(json.dumps(ev) + "\n")
             log("[harness] %s: process died inside the code under test: %s" % (args[0], crash[:200]))
             return p
         raise Infra("harness %s exited %d:\n%s" % (" ".join(map(str, args[:3])), p.returncode,
